@@ -8,7 +8,7 @@ export CARGO_NET_OFFLINE=true
 mkdir -p /tmp/confirm
 git -C /repo worktree add -f $wt HEAD >/dev/null 2>&1 || { echo "$name: cannot create worktree"; exit 2; }
 cd $wt
-cp $src/demo$i.rs poly-commit/tests/demo_$name.rs
+mkdir -p poly-commit/tests; cp $src/demo$i.rs poly-commit/tests/demo_$name.rs
 r1=$(cargo test --offline -p ark-poly-commit --test demo_$name 2>&1 | grep -E "^test result|error(\[|:)" | head -3)
 git apply $src/patch$i.diff || { echo "$name: patch does not apply"; cd /; git -C /repo worktree remove --force $wt; exit 2; }
 r2=$(cargo test --offline -p ark-poly-commit --test demo_$name 2>&1 | grep -E "^test result|error(\[|:)|panicked" | head -3)
